@@ -2,7 +2,7 @@
    the sort as a sorted permutation, the unique-prefix pass against the
    Spec "every name that lies below a returned 'name/' entry is removed". *)
 From Coq Require Import List ZArith Bool Arith Lia Permutation Sorting.Sorted.
-From RtoscV Require Import Osc.OscModel Ports.MetaModel Ports.MetaProofs Ports.NameModel Ports.PathModel.
+From RtoscV Require Import Match.PatSpec Match.MatchModel Osc.OscModel Ports.MetaModel Ports.MetaProofs Ports.NameModel Ports.PathModel.
 Import ListNotations.
 Local Open Scope Z_scope.
 
